@@ -27,7 +27,9 @@ def run(tier, replay=None):
         ("MC_Discovery", "MC_Discovery.cfg", {"workers": 8, "heap": "4g"}, "pass"),
         ("MC_Discovery", "XF_DiscoveryUnsync.cfg", {"workers": 4}, "fail"),
     ])
-    groups = ["G_c08_fixed", "G_c08_eph", "G_c08_4", "G_c08_tcp"]
+    # G_mixed_fixed: what an error path (refused / reset / unanswered TCP peer, silence) leaves behind must not keep the
+    # calls queued behind it from being served
+    groups = ["G_c08_fixed", "G_c08_eph", "G_c08_4", "G_c08_tcp", "G_mixed_fixed"]
     n = 40 if tier == "quick" else 500
     total, drift, _ = transport.run_groups(v, groups, n)
     # the schedule between Transport!Finish and Transport!Return, forced with a gate around the real driver
@@ -36,7 +38,7 @@ def run(tier, replay=None):
     gate = common.harness_traces("c08gate", tier, shards=2, extra_args=["-x", "layouts=%s;port=%d" % (layouts, 28400)], timeout=1800)
     common.validate(v, "Trace_Api", "Trace_Api.cfg", gate, lambda conj, rec: "%s:%s:%s" % (conj, rec["gate"]["scenario"], rec["gate"]["role"]))
     # the same scripts under the race detector, plus discovery while replies arrive and listener shutdown
-    races = race_run(v, groups, 12 if tier == "quick" else 150)
+    races = race_run(v, [g for g in groups if g.startswith("G_c08")], 12 if tier == "quick" else 150)
     v.coverage["race_reports"] = len(races)
     v.coverage["rule"] = ("all interleavings of 2-3 calls in the model (exhaustive); %d simulated behaviours per group with 3-4 concurrent calls to one controller over mixed paths replayed on real sockets "
                           "(crossing visible through request tags echoed in replies; timeliness: a reply within T of being asked must be accepted however long the call queued); "
